@@ -28,6 +28,7 @@ RULE = (
     "visit_Pragma) used in drawn orders must each produce what their class produces in a private copy. Programs carry their own file names (f0.c, f1.c, ...) and directives with and without a file name. "
     "Non-trivial: the schedule switches between instances while one of them is inside a nested scope and the programs share a "
     "name with different meaning; distinct by construction (exhaustive) / by hash of (programs, schedule)."
+    " Pool texts include parses failing at a stray '}' right after a declarator and a text using the same names undeclared. "
 )
 ASSUMPTIONS = [
     "the controller owns the schedule only at token()/visit() boundaries; races inside a single method are only reachable by the free-running part",
@@ -49,6 +50,14 @@ POOL = [
     "typedef int T;\n#line 100\nT l4;\n# 7\nT l5;",
     '# 3 "inc.h"\nint l6;\n#line 100\nint l7;\n# 7\nint l8;',
     "#pragma once\n#line 100\nvoid l9(void) { T }",
+    # parses that fail at an unbalanced brace right after a declarator, and a
+    # program in which the same names are plain (undeclared) identifiers
+    "typedef int T }",
+    "typedef long U = }",
+    "typedef char P, T }",
+    "} typedef int T;",
+    "void n2(void) { } } typedef int U; U * n3;",
+    "void n1(void) { T * x; U * y; P * z; }",
     # far deeper than the interpreter's recursion limit allows (RecursionError alone
     # and under every schedule today): anything a parse does to interpreter-wide
     # settings while it runs shows when another parse overlaps it
@@ -62,11 +71,12 @@ SHORT_PAIRS = [
     ('# 9 "x.h"\nint @ ;', "int ~ ;"),
     ("void f ( ) { T ; }", "typedef int T ;"),
     ("#line 9\nint a ;", "#line 9\nint @ ;"),
+    ("typedef int T }", "void f ( ) { T * x ; }"),
     # thorough tier only (tens of thousands of interleavings each)
     ("typedef int T ; T b ;", "int T ; int c = T ;"),
     ("void f ( ) { int T ;", "typedef int T ; T x ;"),
 ]
-NQUICK_PAIRS = 6
+NQUICK_PAIRS = 7
 
 
 class _Abort(BaseException):
